@@ -225,17 +225,116 @@ func runProxy(c Case) (*collectServer, error) {
 	return srv, err
 }
 
-// faultName names a store's fault in violation signatures: open | recv | timeout, followed by the error kind
-// in parentheses when it is not the plain one, e.g. "recv(grpc-canceled)", "timeout(grpc)".
-func faultName(sp StoreSpec) string {
+// faultName names a store's fault in violation signatures: open | recv | timeout, followed (showKind) by the
+// error kind in parentheses when it is not the plain one, e.g. "recv(grpc-canceled)", "timeout(grpc)".
+func faultName(sp StoreSpec, showKind bool) string {
 	k := sp.Fault
 	if k == "hang" {
 		k = "timeout"
 	}
-	if sp.Kind != "" {
+	if showKind && sp.Kind != "" {
 		k += "(" + sp.Kind + ")"
 	}
 	return k
+}
+
+type verdict struct{ sig, desc string }
+
+// judge is the oracle: the statement of C06 applied to one finished run.
+func judge(c Case, srv *collectServer, err error, crash string, showKind bool) (out []verdict) {
+	var failed, healthy []int
+	kinds := map[string]bool{}
+	for i, sp := range c.Stores {
+		if sp.Fault != "" {
+			failed = append(failed, i)
+			kinds[faultName(sp, showKind)] = true
+		} else {
+			healthy = append(healthy, i)
+		}
+	}
+	var ks []string
+	for k := range kinds {
+		ks = append(ks, k)
+	}
+	sort.Strings(ks)
+	kindStr := strings.Join(ks, "+")
+	retr := "eager"
+	if c.Lazy {
+		retr = "lazy"
+	}
+	describe := func(i int) string {
+		sp := c.Stores[i]
+		if sp.Fault == "open" {
+			return fmt.Sprintf("store-%d failed (open, error kind %q)", i, sp.Kind)
+		}
+		return fmt.Sprintf("store-%d failed (%s at %d, error kind %q)", i, sp.Fault, sp.At, sp.Kind)
+	}
+	var all []string
+	for _, i := range failed {
+		all = append(all, describe(i))
+	}
+	allFailed := strings.Join(all, ", ")
+	if crash != "" {
+		// a panic of Series on the calling goroutine, or a bubble in which every goroutine is blocked for good
+		// with no timer left (Series never returns): neither "fails" nor "succeeds" as the statement requires
+		sig := "series-call-panicked-"
+		if strings.Contains(crash, "deadlock") {
+			sig = "series-call-never-returns-"
+		}
+		return []verdict{{sig + "on-" + kindStr + "-failure-" + retr, allFailed + "; " + crash}}
+	}
+	if c.Abort || c.Disabled {
+		if err == nil {
+			what := "abort"
+			if !c.Abort {
+				what = "legacy-disabled"
+			}
+			out = append(out, verdict{fmt.Sprintf("%s-request-succeeded-despite-%s-failure-%s", what, kindStr, retr),
+				fmt.Sprintf("%s but Series returned nil (warnings sent: %v, %d series)", allFailed, srv.warnings, len(srv.series))})
+		}
+		return out
+	}
+	if err != nil {
+		return []verdict{{fmt.Sprintf("warn-request-failed-on-%s-failure-%s", kindStr, retr), fmt.Sprintf("%s and Series returned %v", allFailed, err)}}
+	}
+	for _, i := range failed {
+		name := fmt.Sprintf("store-%d", i)
+		found := false
+		for _, w := range srv.warnings {
+			if strings.Contains(w, name) {
+				found = true
+			}
+		}
+		if !found {
+			out = append(out, verdict{fmt.Sprintf("warn-no-warning-for-store-with-%s-failure-%s", faultName(c.Stores[i], showKind), retr),
+				fmt.Sprintf("%s but no warning names it; warnings: %v", describe(i), srv.warnings)})
+		}
+	}
+	got := map[string]map[string]bool{}
+	for _, s := range srv.series {
+		k := labelpb.ZLabelsToPromLabels(s.Labels).String()
+		if got[k] == nil {
+			got[k] = map[string]bool{}
+		}
+		for _, ch := range s.Chunks {
+			got[k][chunkIdentity(ch)] = true
+		}
+	}
+	for _, i := range healthy {
+		for _, e := range c.Stores[i].E {
+			k := lset(e.L, e.R).String()
+			if got[k] == nil {
+				out = append(out, verdict{"warn-series-of-healthy-store-missing-" + retr, fmt.Sprintf("store-%d did not fail but its series %s is not in the response (%s)", i, k, allFailed)})
+				continue
+			}
+			for _, id := range e.C {
+				if !got[k][chunkIdentity(mkChunk(id))] {
+					out = append(out, verdict{"warn-chunk-of-healthy-store-missing-" + retr, fmt.Sprintf("store-%d did not fail but chunk %d of its series %s is not in the response (%s)", i, id, k, allFailed)})
+				}
+			}
+		}
+	}
+	return out
 }
 
 // runInBubble runs the request inside a fresh synctest bubble. crash is non-empty when Series panicked on the
@@ -297,100 +396,50 @@ func TestCheck(t *testing.T) {
 			b, _ := json.Marshal(c)
 			r.Nontrivial(string(b))
 		}
-		kinds := map[string]bool{}
+		kinded := false
 		for _, i := range failed {
-			kinds[faultName(c.Stores[i])] = true
 			if ek := c.Stores[i].Kind; ek != "" {
+				kinded = true
 				r.Add("failing_stores_with_error_kind_"+c.Stores[i].Fault+"/"+ek, 1)
 			}
 		}
-		var ks []string
-		for k := range kinds {
-			ks = append(ks, k)
-		}
-		sort.Strings(ks)
-		kindStr := strings.Join(ks, "+")
-		retr := "eager"
-		if c.Lazy {
-			retr = "lazy"
-		}
 
 		srv, err, crash := runInBubble(t, c)
-		if crash != "" {
-			// a panic of Series on the calling goroutine, or a bubble in which every goroutine is blocked for good
-			// with no timer left (Series never returns): neither "fails" nor "succeeds" as the statement requires
-			sig := "series-call-panicked-"
-			if strings.Contains(crash, "deadlock") {
-				sig = "series-call-never-returns-"
+		if crash == "" {
+			for _, w := range srv.warnings {
+				if strings.Contains(w, "failed to receive any data in 1s") {
+					r.Add("runs_with_frame_timeout_warning", 1)
+					break
+				}
 			}
-			r.Violation(sig+"on-"+kindStr+"-failure-"+retr, fmt.Sprintf("stores %v failed; %s", failed, crash), c)
-			return
-		}
-
-		for _, w := range srv.warnings {
-			if strings.Contains(w, "failed to receive any data in 1s") {
-				r.Add("runs_with_frame_timeout_warning", 1)
-				break
-			}
-		}
-		if c.Abort || c.Disabled {
-			if err != nil {
+			switch {
+			case (c.Abort || c.Disabled) && err != nil:
 				r.Add("abort_runs_failed_as_required", 1)
 				if strings.Contains(err.Error(), "failed to receive any data in 1s") {
 					r.Add("abort_runs_failed_by_frame_timeout", 1)
 				}
-			}
-			if err == nil {
-				what := "abort"
-				if !c.Abort {
-					what = "legacy-disabled"
-				}
-				r.Violation(fmt.Sprintf("%s-request-succeeded-despite-%s-failure-%s", what, kindStr, retr),
-					fmt.Sprintf("stores %v failed but Series returned nil (warnings sent: %v, %d series)", failed, srv.warnings, len(srv.series)), c)
-			}
-			return
-		}
-		if err != nil {
-			r.Violation(fmt.Sprintf("warn-request-failed-on-%s-failure-%s", kindStr, retr), fmt.Sprintf("stores %v failed and Series returned %v", failed, err), c)
-			return
-		}
-		for _, i := range failed {
-			name := fmt.Sprintf("store-%d", i)
-			found := false
-			for _, w := range srv.warnings {
-				if strings.Contains(w, name) {
-					found = true
-				}
-			}
-			if !found {
-				r.Violation(fmt.Sprintf("warn-no-warning-for-store-with-%s-failure-%s", faultName(c.Stores[i]), retr),
-					fmt.Sprintf("%s failed (%s at %d) but no warning names it; warnings: %v", name, c.Stores[i].Fault, c.Stores[i].At, srv.warnings), c)
+			case !(c.Abort || c.Disabled) && err == nil:
+				r.Add("warn_runs_succeeded_as_required", 1)
 			}
 		}
-		r.Add("warn_runs_succeeded_as_required", 1)
-		got := map[string]map[string]bool{}
-		for _, s := range srv.series {
-			k := labelpb.ZLabelsToPromLabels(s.Labels).String()
-			if got[k] == nil {
-				got[k] = map[string]bool{}
+		vs := judge(c, srv, err, crash, true)
+		if len(vs) > 0 && kinded {
+			// Does the error KIND matter? Re-run the same case with every failing store failing with the plain
+			// error instead. If that violates too, the kind is irrelevant and the counter-example is filed under
+			// the signature without kinds (the class the plain blocks report); otherwise the kinds are part of the
+			// class. This only names the class; the verdict is the one of the case itself.
+			plain := c
+			plain.Stores = append([]StoreSpec(nil), c.Stores...)
+			for i := range plain.Stores {
+				plain.Stores[i].Kind = ""
 			}
-			for _, ch := range s.Chunks {
-				got[k][chunkIdentity(ch)] = true
+			psrv, perr, pcrash := runInBubble(t, plain)
+			if len(judge(plain, psrv, perr, pcrash, false)) > 0 {
+				vs = judge(c, srv, err, crash, false)
 			}
 		}
-		for _, i := range healthy {
-			for _, e := range c.Stores[i].E {
-				k := lset(e.L, e.R).String()
-				if got[k] == nil {
-					r.Violation("warn-series-of-healthy-store-missing-"+retr, fmt.Sprintf("store-%d did not fail but its series %s is not in the response (failed stores %v)", i, k, failed), c)
-					continue
-				}
-				for _, id := range e.C {
-					if !got[k][chunkIdentity(mkChunk(id))] {
-						r.Violation("warn-chunk-of-healthy-store-missing-"+retr, fmt.Sprintf("store-%d did not fail but chunk %d of its series %s is not in the response (failed stores %v)", i, id, k, failed), c)
-					}
-				}
-			}
+		for _, v := range vs {
+			r.Violation(v.sig, v.desc, c)
 		}
 	})
 }
